@@ -280,6 +280,15 @@ func (t *Task) removeFromQueues() {
 func (t *Task) runWithLocking() {
 	t.lock.Lock()
 
+	// A start attempt for a task that is in none of the queues is stale:
+	// another handler has already taken this submission (the queue handler
+	// and the schedule handler can both pick up a task whose maximum delay
+	// expires while it is being dequeued).
+	if t.queueElement == nil && t.prioritizedQueueElement == nil && t.scheduleListElement == nil {
+		t.lock.Unlock()
+		return
+	}
+
 	// we will not attempt execution, remove from queues
 	t.removeFromQueues()
 
